@@ -140,6 +140,8 @@ module.exports = {
     const nRel = ctx.tier === 'thorough' ? 200000 : 6400
     const per = ctx.tier === 'thorough' ? 2500 : 400
     for (let k = 0; k < nRel / per; k++) shards.push({ profile: 'release', count: per, stream: k })
+    // every catalogue form as a valid program (3 placements each, all of them in thorough): totality on well-formed inputs
+    shards.push({ profile: 'release', catalog: true, stream: 900 })
     const nMem = ctx.tier === 'thorough' ? 4000 : 320
     for (let k = 0; k < nMem / 80; k++) shards.push({ profile: 'memcheck', count: 80, stream: 1000 + k })
     if (ctx.tier === 'thorough') {
@@ -153,7 +155,10 @@ module.exports = {
     const rng = new Rng(ctx.seed, 'c13', spec.stream)
     const files = corpus.list()
     const reqs = []
-    for (let i = 0; i < spec.count; i++) reqs.push(genRequest(rng.fork(i), files))
+    if (spec.catalog) {
+      const pls = ctx.tier === 'thorough' ? cat.PLACEMENTS : rng.sample(cat.PLACEMENTS, 3).concat(cat.PLACEMENTS.filter(p => p.id === 'return'))
+      for (const fm of cat.FORMS) for (const pl of pls) if (cat.compatible(pl, fm)) reqs.push({ code: cat.build(pl, fm, { strict: rng.bool() }).code, file: '/srv/app/catalog.js', meta: { kind: 'catalog:' + pl.id + ':' + fm.id }, config: configs(rng) })
+    } else for (let i = 0; i < spec.count; i++) reqs.push(genRequest(rng.fork(i), files))
     const rep = { evaluations: 0, distinct: [], violations: [], inconclusive: [], samples: [], counters: {}, sets: { error_kinds: [], debug_only_third_party_panics: [], reader_outcomes: [], file_name_shapes: [] } }
     const bump = (k, n = 1) => { rep.counters[k] = (rep.counters[k] || 0) + n }
     let hopts = { profile: spec.profile }
